@@ -274,6 +274,7 @@ class AutoTracer:
         self.n = 0
         self.path_steps = []
         self.fit_solves = []
+        self.solves = []
 
     def sink(self, kind, f):
         from . import skl
@@ -327,6 +328,9 @@ class AutoTracer:
         t = tr.trace(self.n)
         t.update(tr.flags)
         self.traces.append(t)
+        # what each observed solve was asked and what it returned (for checks of what path() / fit() then report)
+        self.solves.append(dict(prob=tr.prob, w=getattr(tr, "result_w", None), strategy=tr.strategy,
+                                family=tr.family, tol=tr.tol))
         self.cur = None
 
     def install(self):
